@@ -104,7 +104,7 @@ fn r_meta(map: &serde_yaml::Mapping) -> String {
     format!("meta=[{}]", map.iter().map(|(k, v)| format!("{}={}", enc_yaml(k), enc_yaml(v))).collect::<Vec<_>>().join(" "))
 }
 
-fn r_report(rep: &cooklang::error::SourceReport, yaml_failed: bool) -> String {
+pub(crate) fn r_report(rep: &cooklang::error::SourceReport, yaml_failed: bool) -> String {
     format!("diags=[{}]", rep.iter().map(|d| r_diag_fm(d, yaml_failed)).collect::<Vec<_>>().join(" "))
 }
 
